@@ -511,7 +511,7 @@ class Data(object):
                         I = np.where(np.isclose(input.thresholds,  field.threshold))[0]
                         if len(I) == 0 or self.dim_agg_length is not None:
                             # Try to get probabilities from ensemble
-                            if input.ensemble is None:
+                            if input.ensemble is None or input.ensemble.shape[-1] == 0:
                                 verif.util.error("%s does not contain '%s'" % (self.get_names()[i], field.name()))
                             temp = self.preaggregate(input.ensemble, input)
 
@@ -535,7 +535,7 @@ class Data(object):
                     elif isinstance(field, verif.field.Quantile):
                         I = np.where(np.isclose(input.quantiles, field.quantile))[0]
                         if len(I) == 0 or self.dim_agg_length is not None:
-                            if input.ensemble is None:
+                            if input.ensemble is None or input.ensemble.shape[-1] == 0:
                                 verif.util.error("%s does not contain '%s'" % (self.get_names()[i], field.name()))
                             if field.quantile < 0 or field.quantile > 1:
                                 verif.util.error("Cannot compute quantile level %g from the ensemble. Quantile levels must be between 0 and 1 (check -q and -b)." % field.quantile)
